@@ -280,6 +280,17 @@ int main(int argc, char **argv) {
     out.open(args.s("out", "-"));
     install_crash_handler();
     uint64_t seed = args.i("seed", 1);
+    // process history: products and blind rotations with a key of another layout (k, l, Bgbit all different) come first
+    if (args.i("prelude", 0)) {
+        Ctx p; p.k = args.i("k", 1) == 1 ? 2 : 1; p.l = args.i("l", 3) == 2 ? 3 : 2; p.Bgbit = args.i("Bgbit", 7) == 9 ? 6 : 9;
+        rng.reseed(seed * 7919ull + 5); seed_library(seed * 13 + 1);
+        double a0 = ldexp(1.0, -27);
+        p.tl = new_TLweParams(N, p.k, a0, 0.25); p.tg = new_TGswParams(p.l, p.Bgbit, p.tl); p.key = new_TGswKey(p.tg); tGswKeyGen(p.key);
+        { char b[64]; snprintf(b, sizeof b, "k%d.l%d.Bg%d", p.k, p.l, p.Bgbit); p.cfg = b; }
+        extern_products(p, 4, a0); helpers(p, 2); blind_rotations(p, 3, 3, a0);
+        delete_TGswKey(p.key); delete_TGswParams(p.tg); delete_TLweParams(p.tl);
+        out.cell("history:other-layout-used-first-in-this-process");
+    }
     Ctx c; c.k = args.i("k", 1); c.l = args.i("l", 3); c.Bgbit = args.i("Bgbit", 7);
     rng.reseed(seed * 1000003ull + c.k * 3 + c.l * 11 + c.Bgbit);
     seed_library(seed * 17 + c.l);
